@@ -4,6 +4,7 @@ package main
 // CometBFT ValidatorSet maintained from the returned validator updates.
 
 import (
+	customgov "github.com/KiraCore/sekai/x/gov"
 	"encoding/json"
 	"fmt"
 	"runtime/debug"
@@ -399,3 +400,42 @@ func withCache(ctx sdk.Context, f func(ctx sdk.Context) error) (err error) {
 }
 
 func cryptoPub(u abci.ValidatorUpdate) (tmcrypto.PubKey, error) { return cryptoenc.PubKeyFromProto(u.PubKey) }
+
+// ReimportGovInPlace performs, on ctx, what a restart from an exported genesis does to the gov module: the module's own
+// ExportGenesis, then every key of the module's store is deleted, then the module's own InitGenesis of the exported
+// state. The other modules' stores (balances, validators, ...) stay as they are, so the state stays whole. Runs on a
+// branch of ctx that is written back only when InitGenesis completes; a panic (or error) is returned and leaves ctx
+// untouched.
+func (w *World) ReimportGovInPlace(ctx sdk.Context) (failed interface{}) {
+	cc, write := ctx.CacheContext()
+	func() {
+		defer func() {
+			if e := recover(); e != nil {
+				failed = e
+			}
+		}()
+		k := w.app.CustomGovKeeper
+		gs := customgov.ExportGenesis(cc, k)
+		// through JSON, as a genesis file would carry it
+		bz := w.app.AppCodec().MustMarshalJSON(gs)
+		var back govtypes.GenesisState
+		w.app.AppCodec().MustUnmarshalJSON(bz, &back)
+		store := cc.KVStore(w.app.GetKey(govtypes.ModuleName))
+		var keys [][]byte
+		it := store.Iterator(nil, nil)
+		for ; it.Valid(); it.Next() {
+			keys = append(keys, append([]byte(nil), it.Key()...))
+		}
+		it.Close()
+		for _, key := range keys {
+			store.Delete(key)
+		}
+		if err := customgov.InitGenesis(cc, k, back); err != nil {
+			failed = err
+		}
+	}()
+	if failed == nil {
+		write()
+	}
+	return failed
+}
